@@ -34,7 +34,7 @@ RULE = ("each run generates a redirect graph over 2-8 URLs on up to three hosts 
         "(graph shape, max_redirects, result class) signatures; non-trivial = the walk contained "
         "at least one redirect")
 PROBES = ["chain_exactly_max", "chain_longer_than_max", "cycle", "self_loop", "cross_host_hop",
-          "grey_target", "non_gemini_target", "cert_changed_on_hop", "follow_disabled",
+          "grey_target", "non_gemini_target", "cert_changed_on_hop", "cert_swapped_on_later_hop", "follow_disabled",
           "max_redirects_zero", "final_after_redirects"]
 COMPONENTS = {
     "real": ["nauyaca.client.session.GeminiClient (_get_with_redirects, _get_single)",
@@ -86,6 +86,11 @@ def run_one(ch):
     bad_host = None
     if ch.chance("badpin", 0.25):
         bad_host = HOSTS[ch.choose("badhost", 3)]
+    # some hosts switch to another certificate after their n-th connection
+    swap_after = {}
+    for h in HOSTS:
+        if ch.chance("swap", 0.2):
+            swap_after[h] = 1 + ch.choose("swapn", 3)
     reqlog = []      # every request line any server received
 
     def behaviour(host):
@@ -110,6 +115,15 @@ def run_one(ch):
             return {"script": [("wait_line",), ("call", respond), ("close",)]}
         return beh
     servers = {h: ScriptedServer(sim, h, 1965, certs[h], behaviour(h)) for h in HOSTS}
+    for h, n_ in swap_after.items():
+        servers[h].cert_queue = [certs[h]] * n_
+        servers[h].cert = "rsa3"
+    pins = {}                 # model of the TOFU store: host -> fixture name
+    conn_count = {h: 0 for h in HOSTS}
+
+    def presented_next(h):
+        n_ = swap_after.get(h)
+        return certs[h] if (n_ is None or conn_count[h] < n_) else "rsa3"
     fetches = []
     nf = 1 + ch.choose("nfetch", 3, [5, 3, 2])
     for _ in range(nf):
@@ -132,7 +146,8 @@ def run_one(ch):
                 got = ("changed", str(e)[:80])
             except Exception as e:  # noqa
                 got = ("err", type(e).__name__, str(e)[:120])
-            out.append((f, got, sum(len(s.conns) for s in servers.values()) - n0, reqlog[r0:]))
+            out.append((f, got, sum(len(s.conns) for s in servers.values()) - n0, reqlog[r0:],
+                        {h: len(s.conns) for h, s in servers.items()}))
 
     status = sim.run(main(), horizon=2000.0, max_iterations=600000)
     if sim.error is not None:
@@ -143,7 +158,12 @@ def run_one(ch):
     st = {}
     sigparts = []
     any_redirect = False
-    for f, got, nconn, reqs in out:
+    prev_counts = {h: 0 for h in HOSTS}
+    for f, got, nconn, reqs, counts_after in out:
+        # connections really made so far (differently spelled loops make the client
+        # connect more often than the node-identity walk below assumes)
+        conn_count.update(prev_counts)
+        prev_counts = counts_after
         # ---- model walk --------------------------------------------------
         cur = f["start"]
         seen = []
@@ -151,8 +171,17 @@ def run_one(ch):
         verdict = None    # ('final', node) | ('error',) | ('grey', node) | ('changed', host) | ('3x', node)
         while True:
             nd = nodes[cur]
-            if bad_host is not None and nd["host"] == bad_host:
-                verdict = ("changed", nd["host"], k)
+            h_ = nd["host"]
+            pres = presented_next(h_)
+            conn_count[h_] += 1
+            if bad_host is not None and h_ == bad_host:
+                verdict = ("changed", h_, k)
+                break
+            if pins.get(h_) is None:
+                pins[h_] = pres
+            elif pins[h_] != pres:
+                st["cert_swapped_on_later_hop"] = 1
+                verdict = ("changed", h_, k)
                 break
             if not f["follow"]:
                 verdict = ("final", cur, k) if nd["kind"] == "final" else ("3x", cur, k)
@@ -185,7 +214,7 @@ def run_one(ch):
                    model=verdict, got=got[:3], connections=nconn,
                    request_lines=[r[1][:80] for r in reqs],
                    graph=[(n["url"], n["kind"], n.get("meta", "")[:60]) for n in nodes],
-                   pinned_wrong_host=bad_host)
+                   pinned_wrong_host=bad_host, cert_swap_after_n_connections=swap_after)
         # ---- universal rules --------------------------------------------
         limit = (max_r + 1) if f["follow"] else 1
         if nconn > limit:
@@ -267,5 +296,5 @@ def run_one(ch):
     res.nontrivial = any_redirect
     res.sample = {"max_redirects": max_r,
                   "graph": [(n["url"], n["kind"], n.get("meta", "")[:40]) for n in nodes][:8],
-                  "fetches": [(nodes[f["start"]]["url"], f["follow"], g[:2]) for f, g, _, _ in out]}
+                  "fetches": [(nodes[f["start"]]["url"], f["follow"], g[:2]) for f, g, _, _, _ in out]}
     return res
